@@ -147,6 +147,10 @@ CHECKS = {
 _PENDING = 'check under construction in this session (see DESIGN.md §3 for the plan); not claimed until its harness passes on the unchanged tree'
 NOT_APPLICABLE = {p: _PENDING for p in ['C%02d' % i for i in range(1, 21)]}
 NOT_APPLICABLE.update({
+    'C19': 'encoded but not decidable within this sandbox: the harness (harness/C19/h_objcache.cpp: real common/expirecontainer.cpp ObjectCacheBase::ref_acquire / ref_release / expire on the contract-level thread engine, typed item / object pools, '
+           'array stand-in for the unordered_set) translates and runs, but already 2 execution slices of 2 users give 16.8 M variables / 75 M clauses and the SAT back end runs out of memory at 9-10 GB (7 slices: no verdict in 1800 s).  Measured cause: the cache items are reached '
+           'only through pointers that travel through the container slots and the intrusive expiry list, so CBMC resolves every field store through them (reference count, recycle marker, list links, vtable pointer in the deleting destructor) as a byte-level update of '
+           'the whole item object (28 000 byte_extract / byte_update operations in 2 slices) - the pointer-rich heap case the technique is weak on.  A verdict needs at least 7 slices (acquire / construct / share / release / recycle); it is out of reach, and no abstract model was substituted (DESIGN 7.5).',
     'C08': 'not encoded: WorkPool::impl::main_loop creates photon threads dynamically (thread_create / thread pool / thread_yield_to), runs tasks that block through Delegate<void> function pointers and sits on the '
            'RingChannel notification protocol; the sequentialiser built here has a fixed set of thread entries and no resumable callees, so the dispatcher protocol (record copied before the slot is reused, call() returns '
            'after its task) cannot be executed symbolically within this session\'s engine (DESIGN 7.5).  No abstract model was substituted.',
